@@ -29,7 +29,8 @@ type InteropCase struct {
 	File   bool `json:"file,omitempty"`
 }
 
-const GoldenDir = "/verif/golden"
+// GoldenDir is set by the driver to <verif dir>/golden.
+var GoldenDir = "/verif/golden"
 
 func init() {
 	register(&Scenario{
